@@ -9,6 +9,8 @@ import ActsModel.Driver.Tmo
 import ActsModel.Driver.Wf
 import ActsModel.Driver.Admit
 import ActsModel.Driver.Op
+import ActsModel.Driver.Progress
+import ActsModel.Driver.Ref
 open Lean Acts.Driver
 
 def dispatch (req : Lean.Json) : Lean.Json :=
@@ -26,6 +28,8 @@ def dispatch (req : Lean.Json) : Lean.Json :=
   | "c20.tree" => treeCase req
   | "c05.admit" => admitCase req
   | "op.run" => opRun req
+  | "c01.monitor" => progressCase req
+  | "ref.eval" => refCase req
   | "ping" => Lean.Json.mkObj [("pong", Lean.Json.bool true)]
   | c => Lean.Json.mkObj [("error", Lean.Json.str s!"unknown cmd {c}")]
 
